@@ -18,6 +18,10 @@ from . import run as R
 
 VERIF = R.VERIF
 REPO = R.REPO
+# scratch runs (PYVC_REPO pointing at a mutated copy) must not overwrite the
+# evidence/replays of the real tree
+OUT = os.environ.get('PYVC_OUT') or (VERIF if REPO == '/repo' else
+                                      '/tmp/pyvc-scratch-out')
 
 
 def sanitize(s):
@@ -119,7 +123,7 @@ class Report:
 
 
 def write_replay(prop, obligation, payload):
-    d = os.path.join(VERIF, 'replays', prop)
+    d = os.path.join(OUT, 'replays', prop)
     os.makedirs(d, exist_ok=True)
     p = os.path.join(d, sanitize(obligation) + '.json')
     with open(p, 'w') as f:
@@ -147,8 +151,31 @@ def check_property(prop, tier='quick', seed=0):
     known = load_known()
     kf = [k for k in known.get('findings', []) if k['property'] == prop]
 
-    # ------------------------------------------------------------ proofs
-    results = R.run_property(prop, opts=opts)
+    # ------------------------------------------------- proofs + canaries
+    # (one pool: every proof and every canary run is an independent job)
+    canaries = []
+    for modname in R.contract_modules():
+        if prop not in R.props_of_module(modname):
+            continue
+        m = native_contract_module(modname)
+        for c in getattr(m, 'CANARIES', []):
+            if c.get('prop', prop) == prop:
+                canaries.append((modname, c))
+    tasks = R.property_tasks(prop, opts)
+    ctasks = []
+    for ci, (modname, c) in enumerate(canaries):
+        full = os.path.join(REPO, c['file'])
+        src = mutate_source(full, c['old'], c['new'])
+        c['_src'] = src
+        if src is None:
+            continue
+        for pn in c['proofs']:
+            ctasks.append((ci, (modname, pn, opts, {full: src})))
+    with ProcessPoolExecutor(max_workers=16) as pool:
+        futs = [pool.submit(R._job, t) for t in tasks]
+        cfuts = [(ci, pool.submit(R._job, t)) for ci, t in ctasks]
+        results = [f.result() for f in futs]
+        cresults = [(ci, f.result()) for ci, f in cfuts]
     if not results:
         rep.say('no proofs registered for %s' % prop)
         return finish(rep, prop, tier, seed, t0, [], [], [], kf, 3)
@@ -180,19 +207,9 @@ def check_property(prop, tier='quick', seed=0):
 
     # ------------------------------------------------------------ canaries
     canary_rows = []
-    canaries = []
-    for modname in R.contract_modules():
-        if prop not in R.props_of_module(modname):
-            continue
-        m = native_contract_module(modname)
-        for c in getattr(m, 'CANARIES', []):
-            if c.get('prop', prop) == prop:
-                canaries.append((modname, c))
-    if tier == 'quick':
-        pass
-    for modname, c in canaries:
+    for ci, (modname, c) in enumerate(canaries):
         full = os.path.join(REPO, c['file'])
-        src = mutate_source(full, c['old'], c['new'])
+        src = c['_src']
         row = {'name': c['name'], 'file': c['file']}
         if src is None:
             row['status'] = 'stale (pattern not found exactly once; the ' \
@@ -200,12 +217,13 @@ def check_property(prop, tier='quick', seed=0):
             canary_rows.append(row)
             continue
         refuted = None
-        for pn in c['proofs']:
-            r = R.run_proof(modname, pn, opts, {full: src})
+        for cj, r in cresults:
+            if cj != ci:
+                continue
             for ob in r['obligations']:
                 if ob['status'] == 'refuted' and (
                         not c.get('expect') or c['expect'] in ob['name']):
-                    refuted = (pn, ob)
+                    refuted = (r['proof'], ob)
                     break
             if refuted:
                 break
@@ -397,8 +415,8 @@ def finish(rep, prop, tier, seed, t0, ob_rows, canary_rows, bounded_rows, kf,
         'wall_s': round(time.time() - t0, 2),
         'violations': len(rep.violations),
     }
-    os.makedirs(os.path.join(VERIF, 'evidence'), exist_ok=True)
-    with open(os.path.join(VERIF, 'evidence', prop + '.json'), 'w') as f:
+    os.makedirs(os.path.join(OUT, 'evidence'), exist_ok=True)
+    with open(os.path.join(OUT, 'evidence', prop + '.json'), 'w') as f:
         json.dump(ev, f, indent=1, default=str)
     rep.say('%s %s: %d/%d obligations discharged, %d paths, %d canaries, '
             '%d native evaluations, %.1fs -> exit %d' % (
